@@ -436,6 +436,7 @@ impl Session {
 
     pub fn exec(&mut self, step: &Value) {
         let a = step["a"].as_str().unwrap_or("");
+        ev(json!({"e": "step", "step": step}));
         match a {
             "open" => {
                 let cfg = Cfg::from_json(&step["cfg"]);
